@@ -125,6 +125,20 @@ func (g *specGen) next() callSpec {
 			func() { drive.Call(func() error { return valid.Struct(nil) }) },
 			func() { drive.Call(func() error { return valid.Struct(nilT) }) },
 			func() { drive.Call(func() error { return valid.Struct(5) }) },
+			// calls refused at the entry guard while carrying rule sets and functions of their own
+			func() { drive.Call(func() error { return valid.StructForFn(nilT, otherRM) }) },
+			func() { drive.Call(func() error { return valid.Struct(nil, otherRM) }) },
+			func() {
+				drive.Call(func() error {
+					return valid.StructForFns(nilT, otherRM, valid.Name2FnMap{"phone": markerFn("pred_phone2"), "required": markerFn("pred_required2"), "l_mark": markerFn("pred_l_mark2")})
+				})
+			},
+			func() {
+				drive.Call(func() error {
+					return valid.NestedStructForRule(nilT, map[interface{}]valid.RM{reflect.New(t).Interface(): otherRM, &C16Inner{}: {"Name": "eq=77|pred_nested"}, &C16Outer{}: {"Name": "eq=77|pred_nested_o"}})
+				})
+			},
+			func() { drive.Call(func() error { return valid.ValidStructForMyValidFn(nil, "required", markerFn("pred_required3")) }) },
 			func() { drive.Call(func() error { return valid.Var("x", "to=5~9|pred_var,nosuch_pred") }) },
 		}
 	}
@@ -194,7 +208,9 @@ func (g *specGen) next() callSpec {
 		s.Preds = []func(){
 			func() { drive.Call(func() error { return valid.Var(v, "eq=77|pred_eq", "required|pred_req") }) },
 			func() { drive.Call(func() error { return valid.VarForFn(v, markerFn("pred_varfn")) }) },
-			func() { drive.Call(func() error { return valid.Var(nil, "required") }) },
+			func() { drive.Call(func() error { return valid.Var(nil, "required", "eq=77|pred_eq2") }) },
+			func() { drive.Call(func() error { return valid.VarForFn(nil, markerFn("pred_varfn2")) }) },
+			func() { var np *int; drive.Call(func() error { return valid.Var(np, "eq=77|pred_eq3") }) },
 			func() { drive.Call(func() error { return valid.Var(struct{}{}, "required") }) },
 		}
 		if kind == "Var" {
@@ -234,6 +250,8 @@ func (g *specGen) next() callSpec {
 		s.Preds = []func(){
 			func() { drive.Call(func() error { return valid.Map(in, valid.RM{"k0": "eq=77|pred_eq", "zz": "required|pred_req"}) }) },
 			func() { drive.Call(func() error { return valid.Map(5, rm) }) },
+			func() { drive.Call(func() error { return valid.Map(nil, valid.RM{"k0": "eq=77|pred_eq2"}) }) },
+			func() { drive.Call(func() error { return valid.MapFn(nil, valid.RM{"k0": "l_mark"}, valid.Name2FnMap{"l_mark": markerFn("pred_l_mark3")}) }) },
 			func() {
 				drive.Call(func() error { return valid.MapFn(in, rm, valid.Name2FnMap{"l_mark": markerFn("pred_l_mark"), "required": markerFn("pred_r")}) })
 			},
@@ -264,6 +282,8 @@ func (g *specGen) next() callSpec {
 		s.Preds = []func(){
 			func() { drive.Call(func() error { return valid.Url(u, valid.RM{"k0": "eq=77|pred_eq", "zz": "required|pred_req"}) }) },
 			func() { drive.Call(func() error { return valid.Url(5, rm) }) },
+			func() { drive.Call(func() error { return valid.Url(nil, valid.RM{"k0": "eq=77|pred_eq2"}) }) },
+			func() { var ns *string; drive.Call(func() error { return valid.Url(ns, valid.RM{"k0": "eq=77|pred_eq3"}) }) },
 			func() { drive.Call(func() error { return valid.Url("http://x?a=%zz", rm) }) },
 		}
 		s.Desc = fmt.Sprintf("Url(%q,%v)", u, rm)
